@@ -20,8 +20,9 @@ func init() {
 			"packet space: C01 quick space (quick) / C01 thorough space (thorough), plus the many-element / large packets of C01",
 		},
 		Scenarios: []mc.Scenario{
-			{Name: "clone-then-mutate", Tiers: "qt", ShardDepth: 4, Run: c20Run},
+			// the cheap scenario first: what it leaves of its share of the budget goes to the other
 			{Name: "clones-of-decoded-packets-with-repeated-ids", Tiers: "qt", ShardDepth: 3, Run: c20Repeated},
+			{Name: "clone-then-mutate", Tiers: "qt", ShardDepth: 4, Run: c20Run},
 		},
 	})
 }
